@@ -88,20 +88,43 @@ pub(super) fn compile_instruction(ctx: &mut Context, data: MatchData) -> Result<
                 _ => panic!("Invalid argument processor")
             },
             FlatArg::Direct { span, reg: RegKind::Dynamic(_, ref expr) } => match *command {
-                Command::R(offset)
-                | Command::RNoZr(offset) => {
+                Command::R(offset) => {
                     dynamics.push((offset, quote_spanned!{ span=>
                         #expr & 0x1F
                     }));
                 },
+                // the constrained register fields reject at run time what they reject for a static register
+                Command::RNoZr(offset) => {
+                    dynamics.push((offset, quote_spanned!{ span=>
+                        {
+                            let _dyn_reg: u32 = #expr;
+                            if _dyn_reg & 0x1F == 31 {
+                                ::dynasmrt::aarch64::invalid_register(_dyn_reg);
+                            }
+                            _dyn_reg & 0x1F
+                        }
+                    }));
+                },
                 Command::REven(offset) => {
                     dynamics.push((offset, quote_spanned!{ span=>
-                        #expr & 0x1E
+                        {
+                            let _dyn_reg: u32 = #expr;
+                            if _dyn_reg & 1 != 0 {
+                                ::dynasmrt::aarch64::invalid_register(_dyn_reg);
+                            }
+                            _dyn_reg & 0x1E
+                        }
                     }));
                 },
                 Command::R4(offset) => {
                     dynamics.push((offset, quote_spanned!{ span=>
-                        #expr & 0xF
+                        {
+                            let _dyn_reg: u32 = #expr;
+                            if _dyn_reg & 0x10 != 0 {
+                                ::dynasmrt::aarch64::invalid_register(_dyn_reg);
+                            }
+                            _dyn_reg & 0xF
+                        }
                     }));
                 },
                 Command::RNext => {
